@@ -50,6 +50,8 @@ func options(full bool) []option {
 		// shift, and a 7-term shift whose translations are zero
 		{"pm=paris+towgs84-3", "+ellps=clrk80 +towgs84=-168,-60,320 +pm=paris", true, 1, 2.337229166667},
 		{"towgs84-7-rotation-only", "+ellps=intl +towgs84=0,0,0,0.35,-0.12,1.1,2.5", true, 1, 0},
+		// ... and one whose rotations are zero but whose scale is not
+		{"towgs84-7-zero-rotations", "+ellps=intl +towgs84=-87,-98,-121,0,0,0,5.2", true, 1, 0},
 	}
 	if !full {
 		return o
